@@ -324,6 +324,11 @@ def run(ctx):
         "base lists are sampled; each accepted rational instance is a theorem for ALL integer exponent vectors",
     ]
     insts = generate(ctx)
+    if ctx.replay:
+        import json
+        with open(ctx.replay) as f:
+            rp = json.load(f)
+        insts = [rp["instance"]] if "instance" in rp else [{"family": "replay", "polar": rp["bases"], "exact": rp.get("exact", rp["bases"])}]
     tasks = [{"kind": "lattice", "bases": i["polar"], "timeout": ctx.pick(60, 240)} for i in insts]
     results = lib.run_tasks(tasks, timeout=ctx.pick(60, 240))
     hist, errs = {}, {}
@@ -431,7 +436,9 @@ def run(ctx):
             "dependent-rows": "returned rows {rows} are linearly dependent",
             "missing-relation": "relation {relation} (prod b_i^e_i = 1 exactly) is not an integer combination of the returned rows",
         }[kind].format(**wit)
-        new = ctx.violation(sig, {"bases": inst["polar"], "polar_basis": inst["B"], "kind": kind, "witness": wit,
+        new = ctx.violation(sig, {"bases": inst["polar"], "exact": inst["exact"],
+                                  "instance": {"family": inst["family"], "polar": inst["polar"], "exact": inst["exact"]},
+                                  "polar_basis": inst["B"], "kind": kind, "witness": wit,
                                   "validators": c, "call": "ExponentLattice(bases).compute_basis()"},
                             f"ExponentLattice({inst['polar']}).compute_basis() = {inst['B']}: {what}")
         stat[kind] = stat.get(kind, 0) + 1
